@@ -6,13 +6,15 @@ From Cfg Require Import Model.UnsubAll Model.UnsubAllSpec Proofs.UnsubAll Harnes
 Import ListNotations.
 Open Scope N_scope.
 
-(* For ALL well-formed node states (any connections with any sets of subscriptions),
+(* For ALL well-formed node states (any connections with any sets of established
+   subscriptions and of subscribe attempts still in flight, answered either way),
    ALL targeting options (user / client / session / label filter / all-users), any
    unsubscribe code and ANY interleaving of the per-connection goroutines (any
    permutation of the effect log): every matching connection ends with no channels
-   and no hub routing, each usual per-channel effect (callback, push, leave if
-   join/leave is on, presence removal if presence is on) happened exactly once per
-   subscription, other connections keep everything, and nothing else happened. *)
+   and no hub routing (attempts in flight included), each usual per-channel effect
+   (callback, push, leave if join/leave is on, presence removal if presence is on)
+   happened exactly once per subscription, a cancelled attempt gets at most its push,
+   other connections keep everything, and nothing else happened. *)
 Theorem C28_unsubscribe_all :
   forall t code s evs,
     wf s ->
@@ -41,6 +43,16 @@ Theorem C28_prefix_code_refuted :
 Proof. exact prefix_refuted. Qed.
 Print Assumptions C28_prefix_code_refuted.
 
+(* So does a variant that snapshots only the established subscriptions (Client.Channels())
+   instead of all keys of Client.channels: an attempt in flight survives. *)
+Theorem C28_established_only_refuted :
+  exists t code s, wf s /\
+    ~ UnsubAllSpec t code s
+        (map observe (fst (node_unsub unsubscribe_connection_established t 0 code s)))
+        (snd (node_unsub unsubscribe_connection_established t 0 code s)).
+Proof. exact established_only_refuted. Qed.
+Print Assumptions C28_established_only_refuted.
+
 (* The oracle evaluated on implementation behaviour decides the specification. *)
 Theorem C28_oracle_sound :
   forall t code s o evs, unsub_all_spec_b t code s o evs = true -> UnsubAllSpec t code s o evs.
@@ -53,24 +65,35 @@ Proof. exact spec_b_complete. Qed.
 Print Assumptions C28_oracle_complete.
 
 (* Non-vacuity: a well-formed state with a matching connection (two subscriptions, one
-   with presence + join/leave), a non-matching one and the resulting effects. *)
+   with presence + join/leave, plus one attempt in flight that succeeds and one that is
+   rejected), a non-matching one and the resulting effects. *)
 Definition ex_state : list conn :=
-  [mkConn 1 1 0 true false [mkChan 1 false false false; mkChan 2 true true true];
-   mkConn 2 2 0 true false [mkChan 1 false false false]].
+  [mkConn 1 1 0 true false [mkChan 1 false false false; mkChan 2 true true true]
+          [(mkChan 3 false false true, true); (mkChan 4 false false false, false)];
+   mkConn 2 2 0 true false [mkChan 1 false false false] [(mkChan 2 false false false, true)]].
 Example C28_ex_wf : wf_b ex_state = true.
 Proof. vm_compute. reflexivity. Qed.
 Example C28_ex_run :
   node_unsubscribe (mkTarget 1 0 0 false false) 0 2000 ex_state
-  = ([mkConn 1 1 0 true false []; mkConn 2 2 0 true false [mkChan 1 false false false]],
+  = ([mkConn 1 1 0 true false [] [];
+      mkConn 2 2 0 true false [mkChan 1 false false false; mkChan 2 false false false] []],
      [EvCallback 1 1 false 2000; EvPush 1 1 2000;
-      EvPresenceRemove 1 2; EvLeave 1 2; EvCallback 1 2 true 2000; EvPush 1 2 2000]).
+      EvPresenceRemove 1 2; EvLeave 1 2; EvCallback 1 2 true 2000; EvPush 1 2 2000;
+      EvLeave 1 3; EvCallback 1 3 false 2000; EvPush 1 3 2000;
+      EvPush 1 4 2000]).
 Proof. vm_compute. reflexivity. Qed.
-Example C28_ex_prefix_run :
-  node_unsubscribe_prefix (mkTarget 1 0 0 false false) 0 2000 ex_state
-  = (ex_state, [EvPush 1 0 2000]).
+Example C28_ex_oracle_accepts :
+  unsub_all_spec_b (mkTarget 1 0 0 false false) 2000 ex_state
+    (map observe (fst (node_unsubscribe (mkTarget 1 0 0 false false) 0 2000 ex_state)))
+    (snd (node_unsubscribe (mkTarget 1 0 0 false false) 0 2000 ex_state)) = true.
 Proof. vm_compute. reflexivity. Qed.
 Example C28_ex_oracle_rejects_prefix :
   unsub_all_spec_b (mkTarget 1 0 0 false false) 2000 ex_state
     (map observe (fst (node_unsubscribe_prefix (mkTarget 1 0 0 false false) 0 2000 ex_state)))
     (snd (node_unsubscribe_prefix (mkTarget 1 0 0 false false) 0 2000 ex_state)) = false.
+Proof. vm_compute. reflexivity. Qed.
+Example C28_ex_oracle_rejects_established_only :
+  unsub_all_spec_b (mkTarget 1 0 0 false false) 2000 ex_state
+    (map observe (fst (node_unsub unsubscribe_connection_established (mkTarget 1 0 0 false false) 0 2000 ex_state)))
+    (snd (node_unsub unsubscribe_connection_established (mkTarget 1 0 0 false false) 0 2000 ex_state)) = false.
 Proof. vm_compute. reflexivity. Qed.
